@@ -164,6 +164,14 @@ func main() {
 			exit(replayAlloc(*minimize, emit))
 		}
 		allocBatch(*base, *from, *to, *tier, *budget, start, emit)
+	case "l2":
+		if *replay != "" {
+			exit(replayL2(*replay, emit))
+		}
+		if *minimize != "" {
+			exit(minimizeL2(*minimize, emit))
+		}
+		l2Batch(*base, *from, *to, *tier, *budget, start, emit)
 	case "stream":
 		if *replay != "" {
 			exit(replayStream(*replay, emit))
